@@ -1,5 +1,5 @@
 /- Finite-domain checker with logarithmic recursion depth, for `decide +kernel`. -/
-namespace Dds
+namespace Dds.ConvRange
 
 /-- `p` holds on `[lo, lo + n)`; binary splitting `d` times, then a list scan -/
 def allRange (p : Nat → Bool) : Nat → Nat → Nat → Bool
@@ -25,4 +25,4 @@ theorem allRange_sound (p : Nat → Bool) : ∀ d lo n, allRange p d lo n = true
 theorem forall_lt_of_allRange (p : Nat → Bool) (d n : Nat) (h : allRange p d 0 n = true) :
     ∀ x, x < n → p x = true := fun x hx => allRange_sound p d 0 n h x (Nat.zero_le _) (by omega)
 
-end Dds
+end Dds.ConvRange
